@@ -474,3 +474,7 @@ def wellformed_clauses(shape, o):
 
 
 PROP = C16()
+
+# shape families added after the first complete pass (DESIGN 8.6-8.11); appended to the bounds written into the evidence
+BOUNDS_ADDED = '; plus: plain constructor and start_fragment variants, one deep path class (<= 12 added fragments, all draws first option)'
+PROP.BOUNDS = {k: v + BOUNDS_ADDED for k, v in PROP.BOUNDS.items()}
